@@ -8,7 +8,11 @@ serial scheduler executes the real task graph in seeded random topological order
 fingerprints every dependency value before/after each task and every user source before/after
 every execution, and compares results across orders, with the threaded scheduler and NumPy.
 
-Two searches: (1) the operation catalogue (harness/props_ext/c10_catalog.py executor + checks, c10_ops.py ~180 public
+Four searches: (0a) result ownership (props_ext/c10_own.py: every array returned by compute / dask.compute / np.asarray /
+blocks / aligned and unaligned slices of plain and PERSISTED collections is overwritten in place; the user's
+array, the persisted data and later computes must not notice), (0b) lock discipline (props_ext/c10_locks.py: a shared-cursor
+source with a reentrancy counter behind from_array(lock=True | lock object) read through several pushed-down views in one
+graph, and store into one shared-cursor target), (1) the operation catalogue (harness/props_ext/c10_catalog.py executor + checks, c10_ops.py ~180 public
 operations with their kwargs, c10_cases.py stratified sweeps: order statistics with overwrite_input/keepdims/method,
 moving-window kernels over first/last-chunk-of-length-1 chunkings and every min_count class, reductions, scans,
 out=/where=, setitem, store, contractions, fft, ...), (2) seeded random array programs + in-place-prone templates.
@@ -22,7 +26,7 @@ import time
 import numpy as np
 
 from harness import graphs, programs
-from harness.props_ext import c10_cases, c10_catalog
+from harness.props_ext import c10_cases, c10_catalog, c10_locks, c10_own
 
 
 def same(a, b):
@@ -343,7 +347,19 @@ def run(ctx, replay=None):
         "identity map_blocks, elementwise copy, slice view, merged+split views, persisted} x sibling consumer): each case on the per-root "
         "merged graph AND on the joint graph of dask.compute, FIFO/LIFO/random orders, fingerprints of every dependency around every task "
         "and of EVERY value at the end, two sync + two 4-thread computes, then x.compute() and a fresh from_array of identical data; "
-        "distinct there = (op, input stage, optimize) and (op, flag kwargs, chunk classes)"
+        "distinct there = (op, input stage, optimize) and (op, flag kwargs, chunk classes).  The catalogue's HEAD family (enumerated "
+        "in every sweep) are operations taking OTHER dask arrays as arguments: x[idx] / take / setitem with integer indexers holding "
+        "negative entries in every integer dtype (the same indexer applied to arrays of two lengths in one graph), 1-D and n-D boolean "
+        "masks, compress/extract/choose/select/where/piecewise/digitize/searchsorted/histogram/bincount/isin/(un)ravel_index with "
+        "collection arguments, NumPy key arrays (watched): every argument collection is a root, a fingerprinted dependency and is "
+        "re-computed afterwards; in every catalogue case every array a stock compute returned is then OVERWRITTEN in place before the "
+        "next compute.  PLUS result ownership (c10_own: stage {plain, derived, persisted source, persisted derived} x {one chunk, "
+        "several} x 19 accessors incl. chunk-aligned slices, blocks, np.asarray, joint computes (to_delayed: one fixed probe of the known finding); overwrite every returned "
+        "array, then the user's array / x.compute() / (x+0).compute() / arrays returned earlier must be unchanged) and lock discipline "
+        "(c10_locks: shared-cursor source behind from_array(lock=True | threading.Lock | SerializableLock | recording lock) x 13 families "
+        "of 2-3 pushed-down views in one graph (slice pairs, slice+rechunk, strided, columns, slice of slice, blocks, transposed, int / "
+        "list rows, joint roots) x from_array kwargs; static: exactly one lock object in the graph; recording lock: every read holds "
+        "it; 4 threads: reentrancy counter with a bounded rendezvous wait; values vs NumPy; store into one shared-cursor target)"
     )
     ctx.assumptions = [
         "C10_topo_eval_unique assumes every task is a pure function of its dependency values; that assumption is MONITORED "
@@ -356,8 +372,9 @@ def run(ctx, replay=None):
     ]
     if replay is not None:
         case = replay["case"] if "case" in replay else replay
-        if case.get("kind") == "cat":
-            for sig, detail in c10_catalog.run_case(ctx, case) or []:
+        if case.get("kind") in ("cat", "lock", "own"):
+            mod = {"cat": c10_catalog, "lock": c10_locks, "own": c10_own}[case["kind"]]
+            for sig, detail in mod.run_case(ctx, case) or []:
                 ctx.fail(sig, case, detail)
             return
         for sig, detail in run_case(ctx, case) or []:
@@ -366,9 +383,14 @@ def run(ctx, replay=None):
     norders = ctx.scale(3, 8)
     ctx.c10_pairs = []
     ctx.c10_limit = ctx.scale(1500, 12000)
+    for _ in range(ctx.scale(1, 6)):
+        c10_own.run(ctx, ctx.scale(3, 10))
+        c10_locks.run(ctx, ctx.scale(6, 12))
+    ctx.notes["own+lock.seconds"] = round(time.time() - t_run, 1)
+    t_run = time.time()  # the budgets below are those of the catalogue / program search alone
     catalogue(ctx, t_run)
     n = ctx.scale(200, 6000)
-    budget = ctx.scale(48, 540)
+    budget = ctx.scale(48, 510)  # thorough: the ownership / lock streams above take ~30 s of the 10 min
     for it in range(n):
         if time.time() - t_run > budget:
             ctx.notes["stopped_early_at"] = it
@@ -403,7 +425,7 @@ def catalogue(ctx, t_run):
     and the threaded scheduler, sources re-computed afterwards"""
     rng = ctx.rng
     sweeps = ctx.scale(2, 8)  # the time budget may cut the second sweep of a quick run short (never the first one's head)
-    budget = ctx.scale(32, 260)
+    budget = ctx.scale(33, 260)
     norders = ctx.scale(2, 5)
     sampled = set()
     for sweep in range(sweeps):
@@ -425,6 +447,7 @@ def catalogue(ctx, t_run):
 
 
 def known_probe(ctx):
+    c10_own.known_probe(ctx)
     prog = [
         {"op": "src", "shape": [4, 5], "chunks": [[2, 2], [3, 2]], "mul": 1, "off": 0, "mod": 1 << 40, "out": "v1"},
         {"op": "swv_reduce", "args": ["v1"], "window": 2, "axis": 1, "fn": "max", "out": "v2"},
